@@ -155,10 +155,15 @@ def native_interp(rng, version, ncases):
             # a sparse layout (sites 100 um apart): no channel has a neighbour within reach
             hx, hy = np.zeros(384), np.arange(384) * 100.0
         data = rng.uniform(4.0, 6.0, (384, 30))
+        if case % 5 == 2 and np.any(np.isin(labels, (1, 2))):
+            # the bad channels themselves hold garbage (NaN / inf, as a dead or unplugged channel can): they are not sources, the repair does not see them
+            bi = np.flatnonzero(np.isin(labels, (1, 2)))
+            data[bi[0], ::3] = np.nan
+            data[bi[-1], 1::4] = np.inf
         out = V.interpolate_bad_channels(data.copy(), labels, hx, hy)
         h = dict(h, x=hx, y=hy)
         keep = ~np.isin(labels, (1, 2))
-        if not np.array_equal(out[keep], data[keep]):
+        if not np.array_equal(out[keep], data[keep], equal_nan=True):
             bad.append(("frame", case))
         for c in np.flatnonzero(~keep):
             d = np.abs(h["x"] - h["x"][c] + 1j * (h["y"] - h["y"][c]))
